@@ -14,6 +14,7 @@
 #include <grp.h>
 #include <dlfcn.h>
 #include <pthread.h>
+#include <sched.h>
 #include <sys/types.h>
 #include <sys/stat.h>
 #include <sys/time.h>
@@ -93,3 +94,4 @@ W char *v_strsep(char **a, const char *b) { return strsep(a, b); }
 W int v_fileno(FILE *f) { return fileno(f); }
 W int v_ftruncate(int fd, off_t l) { return ftruncate(fd, l); }
 W int v_fsync(int fd) { return fsync(fd); }
+W int v_sched_yield(void) { return sched_yield(); }
